@@ -90,6 +90,7 @@ def guardOk (m : M) : Option Guard → Bool
   | none => true
   | some (.stateIn ss) => ss.contains m.state
   | some .facadeSome => m.facade
+  | some .spaSome => m.spa
 
 def needOk (m : M) : Need → Bool
   | .ident => m.ident | .name => m.name | .spa => m.spa
